@@ -407,17 +407,19 @@ theorem RelW.trans {a b c : Sys} (h1 : RelW a b) (h2 : RelW b c) : RelW a c := b
 theorem wakeOne_relW (inp : RunInput) (s : Sys) (pst : RS) (p w : Name) (nd : Node) (hw : s.nodes w = some nd) :
     RelW s (wakeOne inp s pst p w nd) ∧
     (∀ y', (wakeOne inp s pst p w nd).nodes w = some y' → p ∉ y'.waitRun ∧ p ∉ y'.waitRunCalc) := by
-  have u := wokenNode_upd inp pst p nd
-  have wm := wokenNode_waitingMe inp pst p nd
+  have u := wokenF_upd inp s pst p nd
+  have gw := wokenF_grow inp s pst p nd
+  have wm := gw.waitingMe.trans (wokenNode_waitingMe inp pst p nd)
   -- `p` is gone from both sets of the woken node
-  have gone : p ∉ (wokenNode inp pst p nd).waitRun ∧ p ∉ (wokenNode inp pst p nd).waitRunCalc := by
+  have gone : p ∉ (wokenF inp s pst p nd).waitRun ∧ p ∉ (wokenF inp s pst p nd).waitRunCalc := by
+    rw [gw.waitRun, gw.waitRunCalc]
     unfold wokenNode deliver
     split
     · split <;> simp [Node.addDeps, parentStatus]
     · rename_i hnc
       refine ⟨by simp [parentStatus], ?_⟩
       simpa [parentStatus] using hnc
-  have nodes' : ∀ k, (wakeOne inp s pst p w nd).nodes k = if k = w then some (wokenNode inp pst p nd) else s.nodes k := by
+  have nodes' : ∀ k, (wakeOne inp s pst p w nd).nodes k = if k = w then some (wokenF inp s pst p nd) else s.nodes k := by
     intro k; unfold wakeOne; split <;> rfl
   have hnode : ∀ k y, s.nodes k = some y → ∃ y', (wakeOne inp s pst p w nd).nodes k = some y' ∧
       y'.waitingMe = y.waitingMe ∧ y'.status = y.status ∧ y'.waitSelect = y.waitSelect ∧ y'.pc = y.pc ∧
@@ -451,6 +453,7 @@ theorem wakeOne_relW (inp : RunInput) (s : Sys) (pst : RS) (p w : Name) (nd : No
       rw [hw] at e; cases e
       have nr := hk0.2 rfl
       unfold wokenReady at nr
+      rw [gw.waitRun, gw.waitRunCalc]
       unfold wokenNode
       split
       · rename_i hc; simp [hc] at nr
